@@ -105,3 +105,76 @@ func verifC04OldRetiresLast(nOld, nNew, self int) {
 func VerifHarness_C04_ecdsa_reshare_old_member_retires_last_2to3_idx0() { verifC04OldRetiresLast(2, 3, 0) }
 func VerifHarness_C04_ecdsa_reshare_old_member_retires_last_3to3_idx2() { verifC04OldRetiresLast(3, 3, 2) }
 func VerifHarness_C04_ecdsa_reshare_old_member_retires_last_4to2_idx3() { verifC04OldRetiresLast(4, 2, 3) }
+
+// C08 "WaitingFor is exact", ECDSA resharing round 3 at a NEW-committee member, unit level:
+// for every subset of the old members' round-3 messages already stored (the p2p share and
+// the broadcast de-commitment of each old member separately; contents empty, Update only
+// looks at the slots and the channel kind), after Update WaitingFor() names exactly the old
+// members from which something is missing and no new member, and the round proceeds exactly
+// when nothing is missing.
+func VerifHarness_C08_ecdsa_reshare_round3_waitingfor_unit() {
+	ec := tss.S256()
+	const nOld, nNew = 3, 2
+	mk := func(n int, pre string, base int64) tss.SortedPartyIDs {
+		ids := make(tss.UnSortedPartyIDs, n)
+		for i := range ids {
+			ids[i] = tss.NewPartyID(v.Name(pre, i), v.Name(pre, i), big.NewInt(base+int64(i)))
+		}
+		return tss.SortPartyIDs(ids)
+	}
+	oldIDs, newIDs := mk(nOld, "old", 1), mk(nNew, "new", 11)
+	params := tss.NewReSharingParameters(ec, tss.NewPeerContext(oldIDs), tss.NewPeerContext(newIDs), newIDs[0], nOld, 1, nNew, 1)
+	input := keygen.NewLocalPartySaveData(nOld)
+	save := keygen.NewLocalPartySaveData(nNew)
+	temp := &localTempData{}
+	temp.dgRound3Message1s = make([]tss.ParsedMessage, nOld)
+	temp.dgRound3Message2s = make([]tss.ParsedMessage, nOld)
+	b := &base{ReSharingParameters: params, temp: temp, input: &input, save: &save, out: make(chan tss.Message, 1),
+		end: make(chan *keygen.LocalPartySaveData, 1), oldOK: make([]bool, nOld), newOK: make([]bool, nNew), started: true, number: 3}
+	// as round 3 Start leaves the flags of a member of the new committee only: resetOK; allNewOK
+	b.allNewOK()
+	r3 := &round3{&round2{&round1{b}}}
+	msg := func(from *tss.PartyID, bcast bool, content tss.MessageContent) tss.ParsedMessage {
+		meta := tss.MessageRouting{From: from, IsBroadcast: bcast}
+		if !bcast {
+			meta.To = []*tss.PartyID{newIDs[0]}
+		} else {
+			meta.To = newIDs
+		}
+		return tss.NewMessage(meta, content, tss.NewMessageWrapper(meta, content))
+	}
+	missing := make([]bool, nOld)
+	none := true
+	for j := 0; j < nOld; j++ {
+		d1, d2 := v.NondetBool(v.Name("p2p", j)), v.NondetBool(v.Name("bcast", j))
+		if d1 {
+			temp.dgRound3Message1s[j] = msg(oldIDs[j], false, &DGRound3Message1{})
+		}
+		if d2 {
+			temp.dgRound3Message2s[j] = msg(oldIDs[j], true, &DGRound3Message2{})
+		}
+		missing[j] = !d1 || !d2
+		if missing[j] {
+			none = false
+		}
+	}
+	_, err := r3.Update()
+	v.Assert("waitingfor-unit-update-succeeds", err == nil)
+	wf := r3.WaitingFor()
+	for j := 0; j < nOld; j++ {
+		awaited := false
+		for _, w := range wf {
+			if w.KeyInt().Cmp(oldIDs[j].KeyInt()) == 0 {
+				awaited = true
+			}
+		}
+		v.Assert("waitingfor-exact-after-update (unit, old members)", awaited == missing[j])
+	}
+	for _, w := range wf {
+		for k := 0; k < nNew; k++ {
+			v.Assert("waitingfor-names-no-new-member-in-round-3", w.KeyInt().Cmp(newIDs[k].KeyInt()) != 0)
+		}
+	}
+	v.Assert("waitingfor-unit-proceeds-exactly-when-nothing-is-missing", r3.CanProceed() == none)
+	v.Reach("end")
+}
